@@ -39,19 +39,22 @@ class Case:
         self.seed = 0
         self.ops = []             # ('run', n) ('clear',) ('dump',) ('get', c, t, i) ('saveload',) ('reset', c, t)
         self.prop_seed = 0
+        self.ann_nu = 4
+        self.ann_tmax_prior = True
 
     def describe(self):
         return {'id': self.cid, 'kind': self.kind, 'nchains': self.nchains, 'betas': self.betas,
                 'swap_interval': self.swap_interval, 'reset_after_swap': self.reset_after_swap,
                 'dynamic': self.dynamic, 'params': self.params, 'props': self.props,
                 'model': self.model_kind, 'blobs': self.blobs, 'seed': self.seed,
-                'prop_seed': self.prop_seed, 'ops': self.ops}
+                'prop_seed': self.prop_seed, 'ops': self.ops,
+                'ann_nu': self.ann_nu, 'ann_tmax_prior': self.ann_tmax_prior}
 
     @staticmethod
     def from_description(d):
         c = Case(d['id'])
         for k in ('kind', 'nchains', 'betas', 'swap_interval', 'reset_after_swap', 'dynamic',
-                  'model_kind', 'blobs', 'seed', 'prop_seed'):
+                  'model_kind', 'blobs', 'seed', 'prop_seed', 'ann_nu', 'ann_tmax_prior'):
             if k in d:
                 setattr(c, k, d[k])
         c.model_kind = d.get('model', c.model_kind)
@@ -81,6 +84,12 @@ def gen_case(rng, cid, families=None, kinds=('mh', 'pt'), allow_saveload=True,
         c.dynamic = allow_dynamic and nt >= 3 and rng.random() < 0.5
         if c.dynamic:
             c.betas = sorted(c.betas, reverse=True)
+            # small nu = large adjustments: with a finite hottest temperature the adapted ladder
+            # can transiently lose its order, which is legal and must survive clears and resumes
+            c.ann_nu = rng.choice([1, 1, 2, 4, 10])
+            c.ann_tmax_prior = rng.random() < 0.5
+            if not c.ann_tmax_prior and c.betas[-1] == 0.0:
+                c.betas[-1] = 0.0625
     # proposals / parameters
     fams = list(families or F.FAMILIES)
     nprops = rng.choice([1, 1, 2, 2, 3])
@@ -141,7 +150,7 @@ def build_sampler(c, seed, model):
     pnames = [p[0] for p in c.params]
     if c.kind == 'mh':
         return MetropolisHastingsSampler(pnames, model, c.nchains, proposals=props, seed=seed)
-    ann = DynamicalAnnealer(tau=rng_tau(c), nu=4) if c.dynamic else None
+    ann = DynamicalAnnealer(tau=rng_tau(c), nu=c.ann_nu, Tmax_prior=c.ann_tmax_prior) if c.dynamic else None
     return ParallelTemperedSampler(pnames, model, c.nchains, numpy.array(c.betas),
                                    swap_interval=c.swap_interval, proposals=props,
                                    adaptive_annealer=ann, reset_after_swap=c.reset_after_swap,
